@@ -708,6 +708,8 @@ func (a *tsRun) run(s *tsState) {
 					if cv, ok := f.regs[cellKey{in.X}]; ok {
 						f.regs[in] = cv
 					}
+				} else if g, ok := in.X.(*ssa.Global); ok && sentinelError(g) {
+					f.regs[in] = vnil(true) // a named error: the same as errors.New at the use site
 				}
 			case token.NOT:
 				if x.k == kBool {
@@ -1675,4 +1677,96 @@ func (a *tsRun) sortedEvents() []*Event {
 		return evs[i].Entry < evs[j].Entry
 	})
 	return evs
+}
+
+// ---- sentinel errors ---------------------------------------------------------------------
+
+var sentinelCache = map[*ssa.Global]bool{}
+
+// sentinelError: g is a package variable of type error that is assigned exactly once in the whole program - in its
+// package initialiser, from errors.New / fmt.Errorf - and whose address is never taken otherwise. Loading it yields a
+// non-nil error, exactly like calling errors.New at the use site (a named error keeps text and control flow).
+func sentinelError(g *ssa.Global) bool {
+	if v, ok := sentinelCache[g]; ok {
+		return v
+	}
+	res := false
+	defer func() { sentinelCache[g] = res }()
+	pt, ok := g.Type().(*types.Pointer)
+	if !ok || !types.Identical(pt.Elem(), types.Universe.Lookup("error").Type()) || g.Pkg == nil {
+		return false
+	}
+	stores, other := 0, 0
+	var scan func(fn *ssa.Function, isInit bool)
+	seen := map[*ssa.Function]bool{}
+	scan = func(fn *ssa.Function, isInit bool) {
+		if fn == nil || seen[fn] {
+			return
+		}
+		seen[fn] = true
+		for _, b := range fn.Blocks {
+			for _, in := range b.Instrs {
+				switch x := in.(type) {
+				case *ssa.Store:
+					if x.Addr == ssa.Value(g) {
+						c, isCall := x.Val.(*ssa.Call)
+						if isInit && isCall && (calleeNameOf(c) == "errors.New" || calleeNameOf(c) == "fmt.Errorf") {
+							stores++
+						} else {
+							other++
+						}
+						continue
+					}
+				case *ssa.UnOp:
+					if x.X == ssa.Value(g) {
+						continue // a load
+					}
+				}
+				for _, op := range in.Operands(nil) {
+					if *op == ssa.Value(g) {
+						other++ // address escapes
+					}
+				}
+			}
+		}
+		for _, af := range fn.AnonFuncs {
+			scan(af, false)
+		}
+	}
+	for _, p := range g.Pkg.Prog.AllPackages() {
+		if p != g.Pkg && !importsPkg(p, g.Pkg) {
+			continue
+		}
+		for _, m := range p.Members {
+			switch x := m.(type) {
+			case *ssa.Function:
+				scan(x, p == g.Pkg && x.Name() == "init")
+			case *ssa.Type:
+				for _, t := range []types.Type{x.Type(), types.NewPointer(x.Type())} {
+					ms := p.Prog.MethodSets.MethodSet(t)
+					for i := 0; i < ms.Len(); i++ {
+						scan(p.Prog.MethodValue(ms.At(i)), false)
+					}
+				}
+			}
+		}
+	}
+	res = stores == 1 && other == 0
+	return res
+}
+
+func importsPkg(p, q *ssa.Package) bool {
+	for _, im := range p.Pkg.Imports() {
+		if im == q.Pkg {
+			return true
+		}
+	}
+	return false
+}
+
+func calleeNameOf(c *ssa.Call) string {
+	if f := c.Call.StaticCallee(); f != nil {
+		return f.String()
+	}
+	return ""
 }
